@@ -34,10 +34,22 @@ def render(name, atoms, numbers, edges, sections, rng, style):
     def blanks():
         return str(rng.choice([" ", "  ", "\t", "   ", " \t "])) if style["spacing"] else " "
 
+    branch = [0]          # 0: outside, 1: inside "#ifdef", 2: inside "#else"
+
     def noise(out):
         if not style["noise"]:
             return
-        k = int(rng.integers(0, 8))
+        if branch[0]:
+            # an "#ifdef ... #else ... #endif" block spanning the lines of a section: the library does not evaluate
+            # conditions - the lines of BOTH branches are entries of the section
+            out.append("#else" if branch[0] == 1 else "#endif")
+            branch[0] = (branch[0] + 1) % 3
+            return
+        k = int(rng.integers(0, 9))
+        if k == 8:
+            out.append("#ifdef FLEXIBLE")
+            branch[0] = 1
+            return
         if k == 0:
             out.append("; a comment line")
         elif k == 1:
@@ -77,6 +89,9 @@ def render(name, atoms, numbers, edges, sections, rng, style):
         if style["noise"] and rng.random() < 0.2:
             line += str(rng.choice([" ; qtot 0.%d" % k, " ; charge in [e]", " ;[ atoms ]"]))
         out.append(line)
+    if branch[0]:
+        out.append("#endif")
+        branch[0] = 0
     out.append("")
     others = [("angles", 3), ("dihedrals", 4), ("exclusions", 2), ("dihedrals", 4)]
     oi = 0
@@ -104,6 +119,9 @@ def render(name, atoms, numbers, edges, sections, rng, style):
             if style["noise"] and rng.random() < 0.2:
                 line += str(rng.choice([" ; bond", " ; b0 in [nm]", " ; [ bonds ]", " ; drawn as C-C\\", " ;\\"]))
             out.append(line)
+        if branch[0]:
+            out.append("#endif")
+            branch[0] = 0
         out.append("")
     text = "\n".join(out)
     if style["final_newline"]:
